@@ -4,276 +4,194 @@ from __future__ import annotations
 import ast
 
 from .. import astutil as A
+from .. import sym as S
 from ..core import AnalysisError, Collector
-from ..effects import Summarizer, loops_closed
-from .common import DEF_ATTRS, INDEX_ATTRS, fnctx, has_guard, is_self_call, is_method_call, self_attr_stores
+from .common import INDEX_ATTRS, SCtx, sctx
 from . import c01, c02
+from .indexfx import index_effects
 
 PROP = "C03"
-FLOORS = {"C03.R1": 7, "C03.R2": 2, "C03.R3": 4, "C03.R4": 2, "C03.R5": 3}
+FLOORS = {"C03.R1": 7, "C03.R2": 4, "C03.R3": 4, "C03.R4": 4, "C03.R5": 3}
 META = {
-    "explanation": "register and unregister are summarised into symbolic index effects (index, key origin, value origin, +/-) and "
-                   "compared as inverses including multiplicity (same loop origins); every re-definition path unregisters first; "
-                   "the lists of indices handled by __init__/refresh/cleanup/copy/verify agree; clone/refresh rebuild only through "
-                   "register; the RefCount multiset has increment/decrement/delete-at-one semantics.",
+    "explanation": "register and unregister are summarised into symbolic index effects (index, key term, value term, +/-, "
+                   "iteration space) and compared as inverses including multiplicity; every re-definition path (set_value, load) "
+                   "unregisters first; the reaction to an assignment is computed from the current indices on every call (no "
+                   "memoised schedule); the lists of indices handled by __init__/refresh/cleanup/verify agree; clone/refresh "
+                   "rebuild only through register; the RefCount multiset has increment / decrement / delete-at-one semantics.",
     "decides": "unregister undoes exactly what register did (structurally), on every index, with matching multiplicity",
     "not_decided": "behavioural equality with a fresh manager on all histories",
     "assumptions": ["task.targets / task.dependencies are not mutated between register and unregister"],
 }
 
 
-def unregister_summary(col):
-    cx = fnctx(col.repo, "Manager", "unregister")
-    P = A.params(cx.fn)
-    if len(P) != 2:
-        raise AnalysisError("Manager.unregister: expected (self, taskid)")
-    return cx, Summarizer(cx.fn, set(DEF_ATTRS), None, P[1])
-
-
 def _inverse(col, rule="C03.R1"):
-    rcx, reg = c02.register_summary(col)
-    ucx, unr = unregister_summary(col)
-    q = "Manager.unregister"
-    adds = [e for e in reg.effects if e.op in ("+", "set")]
-    removes = [e for e in unr.effects if e.op == "-"]
-    delkeys = [e for e in unr.effects if e.op == "delkey"]
-    used = set()
-    for a in adds:
-        match = [r for r in removes if r.triple() == a.triple() or (a.op == "set" and False)]
-        covered_by_del = [d for d in delkeys if d.index == a.index and d.key == a.key and a.key == "TASKID"]
-        ok = False
-        facts = ""
-        if match:
-            r = match[0]
-            used.add(id(r))
-            same_mult = set(r.loops) == set(a.loops)
-            guard_ok = r.guard in ("", "member")
-            ok = same_mult and guard_ok and len(match) == 1
-            facts = f"{r.short()} loops={r.loops} guard={r.guard or '-'} (register: loops={a.loops})"
-            if len(match) > 1:
-                facts += f"; removed {len(match)} times"
-        elif covered_by_del:
-            d = covered_by_del[0]
-            used.add(id(d))
-            ok = d.guard in ("", "haskey") and not d.loops
-            facts = f"covered by {d.short()} guard={d.guard or '-'}"
+    usx, reg, unr = c02.inverse_effects(col, rule)
+    col.info["register_effects"] = [e.short() for e in reg]
+    col.info["unregister_effects"] = [e.short() for e in unr]
+
+
+def load_protocol(col, rule="C03.R2", flag_rule=None):
+    sx = sctx(col.repo, "Manager", "load", public=True, keep=c01.ANCHORS)
+    cfg = sx.cfg
+    q = "Manager.load"
+    R = sx.calls_some(S.mcall(S.SELF, "register", S.V("t")))
+    U = sx.calls_some(S.mcall(S.SELF, "unregister", S.V("x")))
+    if not R:
+        raise AnalysisError(f"{q}: no call of self.register -- cannot decide")
+    ow = sx.pnamed("overwrite") if "overwrite" in sx.sym.params else None
+    for ev, m in R:
+        mt = S.match(m["t"], S.fcall("ExprTask", S.V("lhs"), S.V("rhs")))
+        if mt is None:
+            col.fail(rule, f"{q}#registers-ExprTask", sx.loc(ev), "load registers ExprTask(lhs, rhs)", S.show(ev.term))
+            continue
+        lhs = mt["lhs"]
+        in_tasks = ("cmp", "in", lhs, S.sattr("tasks"))
+        hdrs = [g.of for g in cfg.guards(ev.nid) if g.kind == "T" and isinstance(g.ast, (ast.For, ast.AsyncFor))]
+        tb = [g.id for g in cfg.guards(ev.nid) if g.kind == "T" and isinstance(g.ast, (ast.For, ast.AsyncFor))]
+        good_u = [u.nid for u, mu in U if mu["x"] == lhs]
+        br_in = sx.branches(in_tasks)
+        br_out = sx.branches(("cmp", "not in", lhs, S.sattr("tasks")))
+        if not tb:
+            raise AnalysisError(f"{q}: register is not inside the loop over the dump -- cannot decide")
+        # on every path (within one iteration) to register(task): the old definition was unregistered, or there is none
+        leak = cfg.path_avoiding(tb[0], ev.nid, good_u + br_out + hdrs)
+        col.add(rule, f"{q}#unregister-existing-definition", not leak, sx.loc(ev),
+                "load registers a task for an already defined target only after unregistering it (or skips it): every path to "
+                "register(task) passes unregister(lhs) or a branch on which `lhs not in self.tasks` is known",
+                "a path reaches register(task) with neither" if leak else "")
+        # the overwrite flag
+        okc, factc = True, ""
+        if ow is None:
+            okc, factc = False, "no `overwrite` parameter"
         else:
-            facts = f"no inverse among: {[e.short() for e in unr.effects]}"
-        col.add(rule, f"{q}#undo:{a.short()}", ok, f"{ucx.module.rel}:{(match or covered_by_del or [a])[0].line}" if (match or covered_by_del) else ucx.loc(ucx.fn),
-                f"unregister undoes `{a.short()}` of register with the same key/value origins and multiplicity", facts)
-    stray = [e for e in unr.effects if id(e) not in used and e.op in ("-", "delkey", "clear", "?", "set", "rebind", "+")]
-    col.add(rule, f"{q}#no-removal-without-addition", not stray and not unr.unknown, ucx.loc(ucx.fn),
-            "unregister has no index effect that is not the inverse of an effect of register",
-            f"stray: {[e.short() for e in stray]} unrecognised: {unr.unknown}")
-    # the removal of the producer-side edges relies on tartasks still holding the producers: reads of tartasks[dep]
-    # must not be preceded by the removal of the task from tartasks of the same key family -- not an issue unless dep is
-    # a target of the same task; recorded as information only.
-    col.info["register_effects"] = [e.short() for e in reg.effects]
-    col.info["unregister_effects"] = [e.short() for e in unr.effects]
-    # the task removed is looked up from self.tasks[taskid]
-    tp = A.params(ucx.fn)[1]
-    src_ok = any(isinstance(n, ast.Assign) and isinstance(n.value, ast.Subscript) and A.dotted(n.value.value) == "self.tasks"
-                 and A.dotted(n.value.slice) == tp for n in A.walk(ucx.fn))
-    col.add(rule, f"{q}#task-from-tasks", src_ok, ucx.loc(ucx.fn),
-            "the targets/dependencies undone are those of the registered task self.tasks[taskid]", "")
+            for u, mu in U:
+                if not (sx.under(u.nid, in_tasks) and sx.under(u.nid, ow)):
+                    okc, factc = False, f"unregister runs under {[S.show(c) for c in sx.conds(u.nid)]}"
+            nxt = hdrs + [cfg.EXIT]
+            not_ow = sx.branches(("uop", "not", ow))
+            for x in nxt:
+                if cfg.path_avoiding(tb[0], x, [ev.nid] + br_in + [h for h in hdrs if h != x]) and x in cfg.reachable(tb[0], [ev.nid] + br_in):
+                    okc, factc = False, "an entry can be skipped although its target is not known to be defined"
+                if cfg.path_avoiding(tb[0], x, [ev.nid] + not_ow + [h for h in hdrs if h != x]) and x in cfg.reachable(tb[0], [ev.nid] + not_ow):
+                    okc, factc = False, "an entry can be skipped although overwrite is not known to be False"
+        col.add(flag_rule or rule, f"{q}#overwrite-flag", okc, sx.loc(ev),
+                "an entry is skipped only if its target is currently defined and overwrite is False; it is replaced only if "
+                "defined and overwrite is True", factc)
+    fx, unk = index_effects(sx)
+    col.add(rule, f"{q}#no-hand-written-index-writes", not fx and not unk, sx.loc(fx[0].nid) if fx else sx.loc(sx.fn),
+            "load changes definitions only through unregister/register", f"{[e.short() for e in fx]}")
 
 
 def _redefinition(col, rule="C03.R2"):
-    # set_value: reuse the C01.R1 obligation, attributed to C03.R2
     sub = Collector(col.repo, "C03", col.tier)
     c01._set_value_protocol(sub, rule="C01.R1", only="C03")
     for o in sub.obs:
-        if o.rule == "C03.R2":
+        if o.rule == "C03.R2" or o.construct.endswith("#trigger-set"):
+            o.rule = rule
             col.obs.append(o)
-    # load
-    cx = fnctx(col.repo, "Manager", "load")
-    cfg = cx.cfg
-    q = "Manager.load"
-    R = cx.call_nodes(lambda c: is_self_call(c, "register"))
-    U = cx.call_nodes(lambda c: is_self_call(c, "unregister"))
-    if not R:
-        col.fail(rule, f"{q}#register", cx.loc(cx.fn), "load registers the loaded tasks", "no register call")
-        return
-    for r in R:
-        c = cx.calls_at(r, lambda c: is_self_call(c, "register"))[0]
-        t = cx.resolve(c.args[0], r) if c.args else None
-        lhs = A.dotted(t.args[0]) if isinstance(t, ast.Call) and A.call_name(t) == "ExprTask" and t.args else None
-        if lhs is None:
-            col.fail(rule, f"{q}#registers-ExprTask", cx.loc(r), "load registers ExprTask(lhs, rhs)", A.src(c))
-            continue
+    load_protocol(col, rule)
 
-        def in_tasks(tst):
-            p = A.compare_parts(tst)
-            return bool(p and isinstance(p[1], ast.In) and A.dotted(p[0]) == lhs and A.dotted(p[2]) == "self.tasks")
-        tests = [n.id for n in cfg.nodes.values() if n.kind == "test" and in_tasks(n.ast)]
-        ok = bool(tests)
-        facts = ""
-        for t_ in tests:
-            tb = [n.id for n in cfg.nodes.values() if n.kind == "T" and n.of == t_][0]
-            good_u = [u for u in U if A.dotted(cx.calls_at(u, lambda c: is_self_call(c, "unregister"))[0].args[0]) == lhs]
-            headers = [g.of for g in cfg.guards(r) if g.kind == "T" and isinstance(g.ast, ast.For)]
-            if cfg.path_avoiding(tb, r, good_u + headers):  # within one iteration of the loop over the dump
-                ok = False
-                facts = "an existing definition can reach register(task) without unregister(lhs)"
-            if not cfg.dominates(t_, r):
-                ok = False
-                facts = "register(task) is reachable without the `lhs in self.tasks` test"
-        if not tests:
-            facts = "no `lhs in self.tasks` test"
-        col.add(rule, f"{q}#unregister-existing-definition", ok, cx.loc(r),
-                "load registers a task for an already defined target only after unregistering it (or skips it)", facts)
-        # overwrite=False keeps existing: the skip is under `not overwrite`/else of overwrite and inside `lhs in self.tasks`
-        conts = [n.id for n in cfg.nodes.values() if n.kind == "stmt" and isinstance(n.ast, ast.Continue)]
-        okc = True
-        factc = ""
-        for cn in conts:
-            g_in = has_guard(cfg, cn, "T", in_tasks)
-            g_ow = has_guard(cfg, cn, "F", lambda t: A.dotted(t) == "overwrite") or \
-                has_guard(cfg, cn, "T", lambda t: isinstance(t, ast.UnaryOp) and isinstance(t.op, ast.Not) and A.dotted(t.operand) == "overwrite")
-            if not (g_in and g_ow):
-                okc = False
-                factc = f"`continue` guarded by {[g.kind + ':' + A.src(g.ast)[:30] for g in cfg.guards(cn) if not isinstance(g.ast, ast.For)]}"
-        for u in U:
-            if not (has_guard(cfg, u, "T", in_tasks) and has_guard(cfg, u, "T", lambda t: A.dotted(t) == "overwrite")):
-                okc = False
-                factc = "unregister not under `lhs in self.tasks and overwrite`"
-        col.add("C11.R5" if col.prop == "C11" else rule, f"{q}#overwrite-flag", okc, cx.loc(r),
-                "an entry is skipped only if its target is currently defined and overwrite is False; it is replaced only if "
-                "defined and overwrite is True", factc)
+
+def _self_stores(sx: SCtx):
+    out = {}
+    for ev in sx.of_kind("store"):
+        for t in S.alts(ev.target):
+            if S.is_attr(t, S.SELF):
+                out.setdefault(t[2], []).append(ev)
+    return out
 
 
 def _index_lists(col, rule="C03.R3"):
     repo = col.repo
-    mg = repo.cls("Manager")
-    init = {a for a, n in self_attr_stores(repo.method("Manager", "__init__")) if a in INDEX_ATTRS}
-    col.add(rule, "Manager.__init__#indices", init == set(INDEX_ATTRS), mg.module.loc(repo.method("Manager", "__init__")),
-            "all four reverse indices are created by __init__", f"{sorted(init)}")
-    fn = repo.method("Manager", "refresh")
-    rs = {a for a, n in self_attr_stores(fn) if a in INDEX_ATTRS}
-    col.add(rule, "Manager.refresh#indices", rs == set(INDEX_ATTRS), mg.module.loc(fn),
-            "refresh resets every index it then rebuilds (all four)", f"{sorted(rs)}")
-    for a, n in self_attr_stores(fn):
-        if a in INDEX_ATTRS and isinstance(n, ast.Assign):
-            v = n.value
-            ok = isinstance(v, ast.Call) and A.call_name(v) == "defaultdict" and len(v.args) == 1 and A.dotted(v.args[0]) == "RefCount"
-            if not ok:
-                col.fail(rule, f"Manager.refresh#{a}-fresh", mg.module.loc(n), "refresh resets an index to an empty defaultdict(RefCount)", A.src(v))
-    fn = repo.method("Manager", "cleanup")
-    swept = set()
-    for f in (n for n in A.walk(fn) if isinstance(n, ast.For)):
-        it = f.iter
-        elts = it.elts if isinstance(it, (ast.Tuple, ast.List)) else []
-        swept |= {A.self_attr(e) for e in elts if A.self_attr(e)}
-    col.add(rule, "Manager.cleanup#indices", swept == set(INDEX_ATTRS), mg.module.loc(fn),
+    fresh = S.fcall("defaultdict", ("glob", "RefCount"))
+    sx = sctx(repo, "Manager", "__init__", public=True, keep=c01.ANCHORS)
+    st = _self_stores(sx)
+    init = {a for a in st if a in INDEX_ATTRS}
+    col.add(rule, "Manager.__init__#indices", init == set(INDEX_ATTRS) and all(e.value == fresh for a in init for e in st[a]),
+            sx.loc(sx.fn), "all four reverse indices are created empty (defaultdict(RefCount)) by __init__", f"{sorted(init)}")
+    sx = sctx(repo, "Manager", "refresh", public=True, keep=c01.ANCHORS)
+    st = _self_stores(sx)
+    rs = {a for a in st if a in INDEX_ATTRS}
+    col.add(rule, "Manager.refresh#indices", rs == set(INDEX_ATTRS) and all(e.value == fresh for a in rs for e in st[a]),
+            sx.loc(sx.fn), "refresh resets every index it then rebuilds (all four) to an empty defaultdict(RefCount)", f"{sorted(rs)}")
+    sx = sctx(repo, "Manager", "cleanup", public=True, keep=c01.ANCHORS)
+    fx, unk = index_effects(sx)
+    swept = {e.index for e in fx if e.op == "delkey"}
+    col.add(rule, "Manager.cleanup#indices", swept == set(INDEX_ATTRS), sx.loc(sx.fn),
             "cleanup sweeps all four indices (verify compares supports after cleanup)", f"{sorted(swept)}")
-    dels = [n for n in A.walk(fn) if isinstance(n, ast.Delete)]
-    cx = fnctx(repo, "Manager", "cleanup")
-    okd = bool(dels)
-    for d in dels:
-        nid = cx.cfg.node_of(d)
-        def empty_test(t):
-            p = A.compare_parts(t)
-            return bool(p and isinstance(p[1], ast.Eq) and isinstance(p[0], ast.Call) and A.call_name(p[0]) == "len" and A.is_const(p[2], 0)) \
-                or (isinstance(t, ast.UnaryOp) and isinstance(t.op, ast.Not))
-        if not has_guard(cx.cfg, nid, "T", empty_test):
-            okd = False
-    col.add(rule, "Manager.cleanup#only-empty-entries", okd, mg.module.loc(fn),
-            "cleanup deletes only entries that are empty", "")
+    okd = bool(fx) and not unk
+    facts = ""
+    for e in fx:
+        if e.op != "delkey":
+            okd, facts = False, f"cleanup performs {e.short()}"
+            continue
+        # the entry deleted is empty: key = key∈D, some condition empty(val∈D) with the same D
+        mk = S.match(e.key, ("key", S.V("d")))
+        empt = [c for c in e.conds if c[:1] == ("empty",)]
+        if not (mk and any(S.match(c, ("empty", ("val", mk["d"]))) is not None for c in empt)):
+            okd, facts = False, f"{e.short()} under {[S.show(c, False) for c in e.conds]}"
+    col.add(rule, "Manager.cleanup#only-empty-entries", okd, sx.loc(sx.fn), "cleanup deletes only entries that are empty", facts)
     fn = repo.method("Manager", "verify")
     dfl = A.param_defaults(fn).get("dcts")
     names = {A.const(e) for e in dfl.elts} if isinstance(dfl, (ast.Tuple, ast.List)) else set()
-    col.add(rule, "Manager.verify#default-indices", names == set(INDEX_ATTRS), mg.module.loc(fn),
+    col.add(rule, "Manager.verify#default-indices", names == set(INDEX_ATTRS), repo.cls("Manager").module.loc(fn),
             "verify checks all four indices by default", f"{sorted(map(str, names))}")
 
 
 def _rebuild(col, rule="C03.R4"):
     repo = col.repo
     for name in ("clone", "refresh"):
-        cx = fnctx(repo, "Manager", name)
-        recv = "other" if name == "clone" else "self"
-        regs = cx.call_nodes(lambda c: is_method_call(c, "register"))
-        ok = len(regs) == 1
-        facts = ""
-        if ok:
-            loops = [g for g in cx.cfg.guards(regs[0]) if g.kind == "T" and isinstance(g.ast, ast.For)]
-            conds = [g for g in cx.cfg.guards(regs[0]) if not isinstance(g.ast, ast.For)
-                     and "_tree_frozen" not in A.src(g.ast)]
-            c = cx.calls_at(regs[0], lambda c: is_method_call(c, "register"))[0]
-            ok = len(loops) == 1 and A.src(loops[0].ast.iter) in ("self.tasks.values()", "list(self.tasks.values())") \
-                and [A.dotted(a) for a in c.args] == A.target_names(loops[0].ast.target) and not conds
-            facts = f"for {A.src(loops[0].ast.target)} in {A.src(loops[0].ast.iter)}: {A.src(c)}" if loops else "not in a loop"
-        col.add(rule, f"Manager.{name}#rebuild-through-register", ok, cx.loc(regs[0]) if regs else cx.loc(cx.fn),
-                f"{name} rebuilds the indices by registering every task of self.tasks (unconditionally)", facts)
-        # no hand-written index writes besides the reset
-        s = Summarizer(cx.fn, set(DEF_ATTRS), None, None)
-        hand = [e for e in s.effects if e.op != "rebind"]
-        col.add(rule, f"Manager.{name}#no-hand-written-index-writes", not hand, cx.loc(cx.fn),
+        sx = sctx(repo, "Manager", name, public=True, keep=c01.ANCHORS)
+        regs = sx.calls_some(("call", ("attr", S.V("recv"), "register"), (S.V("t"),), ()))
+        if not regs:
+            raise AnalysisError(f"Manager.{name}: no register call -- cannot decide")
+        all_tasks = S.mcall(S.sattr("tasks"), "values")
+        for ev, m in regs:
+            recv_ok = m["recv"] == S.SELF if name == "refresh" else S.is_call_of(m["recv"], ("glob", "Manager"))
+            t_ok = m["t"] == ("elem", all_tasks)
+            conds = [c for c in sx.conds(ev.nid) if c not in (("uop", "not", S.sattr("_tree_frozen")),)]
+            col.add(rule, f"Manager.{name}#rebuild-through-register", recv_ok and t_ok and not conds, sx.loc(ev),
+                    f"{name} rebuilds the indices by registering every task of self.tasks (unconditionally)",
+                    f"{S.show(ev.term)} under {[S.show(c) for c in conds]}")
+        fx, unk = index_effects(sx)
+        hand = [e for e in fx if e.op != "rebind"]
+        col.add(rule, f"Manager.{name}#no-hand-written-index-writes", not hand and not unk, sx.loc(hand[0].nid) if hand else sx.loc(sx.fn),
                 f"{name} performs no index writes of its own", f"{[e.short() for e in hand]}")
 
 
 def _refcount(col, rule="C03.R5"):
     repo = col.repo
-    rc = repo.cls("RefCount")
-    m = rc.module
     # append: self[item] = self.get(item, 0) + 1
-    fn = repo.method("RefCount", "append")
-    it = A.params(fn)[1]
-    ok = False
-    for n in A.walk(fn):
-        if isinstance(n, ast.Assign) and isinstance(n.targets[0], ast.Subscript) and A.dotted(n.targets[0].value) == "self" \
-                and A.dotted(n.targets[0].slice) == it and isinstance(n.value, ast.BinOp) and isinstance(n.value.op, ast.Add):
-            sides = [n.value.left, n.value.right]
-            one = [s for s in sides if A.is_const(s, 1)]
-            get = [s for s in sides if isinstance(s, ast.Call) and is_method_call(s, "get", "self") and len(s.args) == 2
-                   and A.dotted(s.args[0]) == it and A.is_const(s.args[1], 0)]
-            ok = len(one) == 1 and len(get) == 1
-    col.add(rule, "RefCount.append#increment", ok, m.loc(fn), "append increments the count of the item (absent = 0)", A.src(fn.body[-1]))
+    sx = sctx(repo, "RefCount", "append")
+    it = sx.P(0)
+    st = [e for e in sx.of_kind("store") if e.target == ("sub", S.SELF, it)]
+    want = ("op", "+", S.mcall(S.SELF, "get", it, ("const", "0")), ("const", "1"))
+    ok = len(st) == 1 and S.match(st[0].value, want) is not None and sx.cfg.must_pass(sx.cfg.ENTRY, sx.cfg.EXIT, [st[0].nid])
+    col.add(rule, "RefCount.append#increment", ok, sx.loc(sx.fn), "append increments the count of the item (absent = 0)",
+            S.show(st[0].value) if st else "no store")
     # extend: append each
-    fn = repo.method("RefCount", "extend")
-    op = A.params(fn)[1]
-    ok = False
-    for f in (n for n in A.walk(fn) if isinstance(n, ast.For)):
-        if A.dotted(f.iter) == op:
-            cs = [c for c in A.calls(f) if is_self_call(c, "append") and [A.dotted(a) for a in c.args] == A.target_names(f.target)]
-            ok = len(cs) == 1 and not [n for n in A.walk(f) if isinstance(n, (ast.If, ast.Break, ast.Continue))]
-    col.add(rule, "RefCount.extend#append-each", ok, m.loc(fn), "extend appends every element (multiplicity preserved)", "")
+    sx = sctx(repo, "RefCount", "extend", keep={"append"})
+    other = sx.P(0)
+    aps = sx.calls_some(S.mcall(S.SELF, "append", S.V("x")))
+    ok = len(aps) == 1 and aps[0][1]["x"] == ("elem", other) and not sx.conds(aps[0][0].nid) and sx.sym.loops(aps[0][0].nid) == (other,)
+    col.add(rule, "RefCount.extend#append-each", ok, sx.loc(sx.fn), "extend appends every element (multiplicity preserved)",
+            S.show(aps[0][0].term) if aps else "")
     # remove
-    cx = fnctx(repo, "RefCount", "remove")
-    it = A.params(cx.fn)[1]
-    cfg = cx.cfg
-    dels = [n.id for n in cfg.nodes.values() if n.kind == "stmt" and isinstance(n.ast, ast.Delete)
-            and A.src(n.ast.targets[0]) == f"self[{it}]"]
-    decs = [n.id for n in cfg.nodes.values() if n.kind == "stmt" and isinstance(n.ast, (ast.Assign, ast.AugAssign))
-            and A.src(n.ast.targets[0] if isinstance(n.ast, ast.Assign) else n.ast.target) == f"self[{it}]"]
-    ok = len(dels) == 1 and len(decs) == 1
-    facts = ""
+    sx = sctx(repo, "RefCount", "remove")
+    it = sx.P(0)
+    cnt = ("sub", S.SELF, it)
+    dels = [e for e in sx.of_kind("del") if e.target == cnt]
+    decs = [e for e in sx.of_kind("store") if e.target == cnt]
+    ok, facts = len(dels) == 1 and len(decs) == 1, f"{len(dels)} deletions, {len(decs)} stores"
     if ok:
-        def cmp_kind(t):
-            """'gt1' if test means count > 1, 'le1' if means count <= 1"""
-            p = A.compare_parts(t)
-            if not p:
-                return None
-            l, o, r = p
-            cnt = cx.resolve(l, dels[0])
-            if not (A.src(cnt) == f"self[{it}]" or A.src(l) == f"self[{it}]"):
-                return None
-            v = A.const(r)
-            if (isinstance(o, ast.Gt) and v == 1) or (isinstance(o, ast.GtE) and v == 2):
-                return "gt1"
-            if (isinstance(o, ast.LtE) and v == 1) or (isinstance(o, ast.Lt) and v == 2) or (isinstance(o, ast.Eq) and v == 1):
-                return "le1"
-            return "other"
-        gd = [(g.kind, cmp_kind(g.ast)) for g in cfg.guards(dels[0])]
-        gc = [(g.kind, cmp_kind(g.ast)) for g in cfg.guards(decs[0])]
-        ok = (("F", "gt1") in gd or ("T", "le1") in gd) and (("T", "gt1") in gc or ("F", "le1") in gc) and len(gd) == 1 and len(gc) == 1
-        n = cfg.nodes[decs[0]].ast
-        if isinstance(n, ast.Assign):
-            v = n.value
-            ok = ok and isinstance(v, ast.BinOp) and isinstance(v.op, ast.Sub) and A.is_const(v.right, 1)
-        else:
-            ok = ok and isinstance(n.op, ast.Sub) and A.is_const(n.value, 1)
-        facts = f"delete guarded by {gd}; decrement guarded by {gc}"
-    col.add(rule, "RefCount.remove#decrement-or-delete-at-one", ok, cx.loc(cx.fn),
+        gt1 = [("cmp", ">", cnt, ("const", "1")), ("cmp", ">=", cnt, ("const", "2"))]
+        le1 = [("cmp", "<=", cnt, ("const", "1")), ("cmp", "<", cnt, ("const", "2")), ("cmp", "==", cnt, ("const", "1"))]
+        cd, cc = sx.conds(dels[0].nid), sx.conds(decs[0].nid)
+        dv = decs[0].value
+        dec_ok = S.match(dv, ("op", "-", cnt, ("const", "1"))) is not None or S.match(dv, ("aug", "-", cnt, ("const", "1"))) is not None
+        ok = len(cd) == 1 and cd[0] in le1 and len(cc) == 1 and cc[0] in gt1 and dec_ok
+        facts = f"delete under {[S.show(c) for c in cd]}; store {S.show(dv)} under {[S.show(c) for c in cc]}"
+    col.add(rule, "RefCount.remove#decrement-or-delete-at-one", ok, sx.loc(sx.fn),
             "remove decrements a count above one and deletes the entry when the count is one", facts)
 
 
